@@ -36,6 +36,7 @@ type loop struct {
 func loopSyncConfig(enc string) *config.Sync {
 	return &config.Sync{Validate: false, Buffer: 1000, WriteWorkers: 1, Config: []*config.SyncProtocol{
 		{Name: "cfg", Protocol: "gnmi", Mode: "on-change", Encoding: enc, Paths: []string{"/plain"}, Interval: 100 * time.Millisecond},
+		{Name: "ty", Protocol: "gnmi", Mode: "on-change", Encoding: enc, Paths: []string{"/types"}, Interval: 100 * time.Millisecond},
 	}}
 }
 
@@ -52,7 +53,7 @@ func startLoop(h *vlib.HistEnv, tee *vlib.GNMITee, enc string) (*loop, *vlib.Fai
 	ctx, cancel := context.WithCancel(h.Ctx)
 	l.cancel = cancel
 	go h.DS.Sync(ctx)
-	if f := l.wait("subscription", func() bool { return tee.GDev.Subscribers() >= 1 }); f != nil {
+	if f := l.wait("subscription", func() bool { return tee.GDev.Subscribers() >= 2 }); f != nil {
 		return l, f
 	}
 	return l, l.quiescent("initial sync")
